@@ -620,9 +620,25 @@ def replay_stream(case):
         finally:
             st.close()
     else:
+        import signal
         st = FaultStream(data, case.get('faults'))
-        events, end, hc = drive_reader(st, mode, validate=case.get('validate', 1), parsed=case.get('parsed', True),
-                                       labelmsm=case.get('labelmsm', 1), handler=case.get('handler', True), max_calls=budget)
+
+        class _Hang(BaseException):
+            pass
+
+        def _alarm(signum, frame):
+            raise _Hang()
+        old = signal.signal(signal.SIGALRM, _alarm)
+        signal.alarm(20)
+        try:
+            events, end, hc = drive_reader(st, mode, validate=case.get('validate', 1), parsed=case.get('parsed', True),
+                                           labelmsm=case.get('labelmsm', 1), handler=case.get('handler', True), max_calls=budget)
+        except _Hang:
+            return {"reproduced": True, "failed": ["c04: iteration over a finite stream did not finish within 20 s"],
+                    "detail": f"c04: iteration over a finite stream of {len(data)} bytes did not finish within 20 s (watchdog)"}
+        finally:
+            signal.alarm(0)
+            signal.signal(signal.SIGALRM, old)
     failed = []
     pairs = [e for e in events if e[0] == 'pair']
     if 'c04' in checks:
